@@ -27,6 +27,7 @@ func checkC04(c *Ctx) {
 		c04SliceCall(c, v.pp, v.tag)
 		c04Literals(c, v.pp, v.tag)
 	}
+	treeContainers(c, "LITERALS")
 	r.Floor("WALK", 40)
 	r.Floor("SLICE-CALL", 20)
 	c04SliceTable(c)
@@ -2567,4 +2568,148 @@ func c04SliceCallSpec(f, si *ssa.Function, kInt int64) c04SliceSpec {
 		res.detail = fmt.Sprintf("%d specialised paths reach SliceIndices, all with start/end nil-or-int(operand) and step 1-or-nonzero int(step)", n)
 	}
 	return res
+}
+
+// ---------------------------------------------------------------- tree-held containers
+
+// canHoldContainer: a Go type in which a script's list or map (or any dynamically typed value) can sit.
+func canHoldContainer(tp types.Type, d int) bool {
+	if d > 4 {
+		return false
+	}
+	switch u := tp.Underlying().(type) {
+	case *types.Interface:
+		return u.NumMethods() == 0
+	case *types.Slice:
+		return canHoldContainer(u.Elem(), d+1)
+	case *types.Array:
+		return canHoldContainer(u.Elem(), d+1)
+	case *types.Map:
+		return canHoldContainer(u.Elem(), d+1)
+	}
+	return false
+}
+
+// treeContainers (C04 LITERALS, C15 NO-HIDDEN-STATE): the syntax tree is shared by every run and goroutine of a
+// loaded script. A field of a tree node that can hold a dynamically typed value or a container ([]any,
+// map[string]any, any) is therefore read by the interpreters only to test it for nil or to assert it to a pointer of
+// a module type (CallExpr.PrivateData holds the *Script of a use() call). Any other use — copy, range, index, return,
+// conversion to a script value — lets a value that lives on the tree into a run, where the script's index assignment
+// writes through it: a shallow copy of a cached list literal still shares the nested lists, and the next run starts
+// from what the previous one left.
+func treeContainers(c *Ctx, rule string) {
+	r, t := c.R, c.T
+	scope := map[*ssa.Function]bool{}
+	for f := range runScope(t) {
+		scope[f] = true
+	}
+	v2, _ := v2Scope(t)
+	for f := range v2 {
+		scope[f] = true
+	}
+	var fns []*ssa.Function
+	for f := range scope {
+		fns = append(fns, f)
+	}
+	sortFuncs(fns)
+	nField, nUse := 0, 0
+	type key struct{ fn, field string }
+	bad := map[key][]string{}
+	okSeen := map[key]string{}
+	for _, f := range fns {
+		allInstrs(f, func(in ssa.Instruction) {
+			var st types.Type
+			var idx int
+			var loaded []ssa.Value
+			switch x := in.(type) {
+			case *ssa.FieldAddr:
+				st, idx = x.X.Type().Underlying().(*types.Pointer).Elem(), x.Field
+				for _, ref := range *x.Referrers() {
+					if u, ok := ref.(*ssa.UnOp); ok && u.Op == token.MUL {
+						loaded = append(loaded, u)
+					} else if s, ok := ref.(*ssa.Store); ok && s.Addr == ssa.Value(x) {
+						// stores on the tree from a run scope are C16's business (RUN-WRITES)
+					} else {
+						loaded = append(loaded, nil) // the address itself escapes
+					}
+				}
+			case *ssa.Field:
+				st, idx = x.X.Type(), x.Field
+				loaded = append(loaded, x)
+			default:
+				return
+			}
+			named, ok := st.(*types.Named)
+			if !ok || named.Obj().Pkg() == nil || named.Obj().Pkg().Path() != pAst {
+				return
+			}
+			sst, ok := named.Underlying().(*types.Struct)
+			if !ok {
+				return
+			}
+			fld := sst.Field(idx)
+			if !canHoldContainer(fld.Type(), 0) {
+				return
+			}
+			nField++
+			k := key{relName(f), named.Obj().Name() + "." + fld.Name()}
+			for _, v := range loaded {
+				if v == nil {
+					bad[k] = append(bad[k], "address of the field taken at "+t.Pos(in.Pos()))
+					continue
+				}
+				refs := v.Referrers()
+				if refs == nil {
+					continue
+				}
+				for _, ref := range *refs {
+					nUse++
+					switch y := ref.(type) {
+					case *ssa.BinOp:
+						if (y.Op == token.EQL || y.Op == token.NEQ) && (isNilConst(y.X) || isNilConst(y.Y)) {
+							okSeen[k] = "nil test"
+							continue
+						}
+					case *ssa.TypeAssert:
+						if p, ok := y.AssertedType.(*types.Pointer); ok {
+							if n, ok := p.Elem().(*types.Named); ok && n.Obj().Pkg() != nil && strings.HasPrefix(n.Obj().Pkg().Path(), mod) {
+								if _, isStruct := n.Underlying().(*types.Struct); isStruct {
+									okSeen[k] = "asserted to *" + n.Obj().Name()
+									continue
+								}
+							}
+						}
+					case *ssa.DebugRef:
+						continue
+					}
+					bad[k] = append(bad[k], fmt.Sprintf("%T at %s", ref, t.Pos(ref.Pos())))
+				}
+			}
+			if _, isBad := bad[k]; !isBad {
+				if _, seen := okSeen[k]; !seen {
+					okSeen[k] = "no use"
+				}
+			}
+		})
+	}
+	keys := map[key]bool{}
+	for k := range bad {
+		keys[k] = true
+	}
+	for k := range okSeen {
+		keys[k] = true
+	}
+	var ks []key
+	for k := range keys {
+		ks = append(ks, k)
+	}
+	sort.Slice(ks, func(i, j int) bool { return ks[i].fn+ks[i].field < ks[j].fn+ks[j].field })
+	for _, k := range ks {
+		b := bad[k]
+		sort.Strings(b)
+		r.Ob(rule, fmt.Sprintf("%s reads tree field %s only to test or to assert a module pointer", k.fn, k.field), "", len(b) == 0,
+			fmt.Sprintf("admitted: %s; other uses: %s — a dynamically typed value or container kept on the shared tree must not flow into a run (the script can write through it; later runs and other goroutines would see it)", okSeen[k], strings.Join(b, "; ")))
+	}
+	r.Extra[rule+"_tree_container_fields"] = map[string]int{"functions": len(fns), "field reads": nField, "uses": nUse}
+	r.FloorN("reads of container-capable tree fields in the run scopes (CallExpr.PrivateData in use())", len(ks), 1)
 }
